@@ -434,11 +434,11 @@ PROPS['C06'] = {
             'KDBX3: prefixes, header bytes, authenticated-but-malformed payloads (cut, no terminator block, bad hash, long stream-start field, stream start only), transform seeds of the wrong length, short typed fields; '
             'KDB: prefixes, header bytes, authenticated-but-malformed records (cut, over-counted groups/entries, substituted bytes, empty payload, appended bytes), payloads ending in a large byte, a lone key element that is not 32 bytes; '
             'KDF cost clamped; non-trivial = input passes the signature check',
-    'partial': ['the XML object-model reader (everything but the time-stamp scalar) is validated against the real reader, its no-panic theorem is not yet stated over the parser monad',
+    'partial': ['the xml-rs tokenizer is outside the model (its event stream, error events included, is the input of C06_xml_total)',
                 'stack exhaustion on ~1000 nested <Group> elements (A49) aborts the process and is outside what the in-process harness can observe; recorded in DESIGN.md',
                 'hangs: every model reader is structurally recursive on fuel bounded by the input length; the real reader is run under the harness (KDF cost clamped)'],
     'level_text': 'Kernel-checked over the faithful models of the repaired readers (every slice/unwrap modelled): for every byte string, every credential set and every primitive family, '
-                  'decrypt_kdbx4, decrypt_kdbx3, parse_kdb and parse_xml_timestamp return a value or an error (C06_kdbx4_total, C06_kdbx3_total, C06_kdb_total, C06_timestamp_total). '
+                  'decrypt_kdbx4, decrypt_kdbx3, parse_kdb and parse_xml_timestamp return a value or an error (C06_kdbx4_total, C06_kdbx3_total, C06_kdb_total, C06_timestamp_total), and so does the XML object-model reader on every event stream (C06_xml_total). '
                   'The 16 panic sites found on the code as given (F8) were repaired by fix: commits; the real readers are run on malformed input in-process under catch_unwind with outcome and error class compared with the model.',
 }
 PROPS['C01'] = {
@@ -579,10 +579,10 @@ XML_RULE = ('databases built through the public API with every field of every pu
 for pid, extra_rule, txt, part in [
     ('C03', '', 'Kernel-checked: the XML stage of save followed by the XML stage of open is the identity on every database of the domain ContentOk, for every key stream, '
             'every iteration order of every map and with writer and reader ending at the same inner-stream cursor (C03_xml_roundtrip_partial : C03_xml_full ContentOk, by composition of the '
-            'struct-level theorems for values, time-stamp maps, custom data, auto-type, entries with nested histories, the group tree to any depth, Meta with icons / binary pool / memory protection, '
+            'struct-level theorems for values, time-stamp maps, custom data, auto-type, tags, colours, entries with nested histories, the group tree to any depth, Meta with icons / binary pool / memory protection, '
             'deleted objects); the container framing (C03_framing) and the codecs. The faithful Lean models of the XML writer, the xml-rs contract and the XML reader are compared event-by-event and '
             'field-by-field with the real save/open on every generated database, and save∘open = id is checked on the real code with PartialEq.',
-     ['the proved domain leaves out entry tags, colours, byte-string values and blank strings (validated by the correspondence, not proved); the xml-rs tokenizer/emitter is the contract `view` (validated, trusted)']),
+     ['outside the proved domain (C12\'s classes, which the writer does not write back readably): byte-string values, blank strings and empty field values, reserved time-stamp names, empty icon or attachment payloads; the xml-rs tokenizer/emitter is the contract `view` (validated, trusted)']),
     ('C07', '; oracle clauses of the strict reader are named individually', 'Kernel-checked: the library layout is one of the conforming layouts and decodes (framing theorem), sizes of IV/keys/seeds are '
             'those the algorithms require (decide over constants regenerated from the source). Every real save output is unwrapped by an independent strict reader and decoded by the Lean reader model.',
      ['the literal-CR question (F12): the emitter writes CR unescaped; xml-rs does not normalise line ends, a conforming XML processor would deliver LF — reported in DESIGN.md, not counted as a violation of C07']),
